@@ -94,3 +94,36 @@ def pin_process() -> None:
 
 class HarnessError(Exception):
     """Something is wrong with the machinery (never reported as violation nor as success)."""
+
+
+def in_fork(fn, *args, **kwargs):
+    """Run fn(*args, **kwargs) in a fork of this (single-threaded) process and return its pickled
+    result. Whatever fn leaves behind in process-global state dies with the child, so every
+    simulated execution starts from the same state and is replayable on its own."""
+    import pickle
+    rfd, wfd = os.pipe()
+    pid = os.fork()
+    if pid == 0:
+        code = 1
+        try:
+            os.close(rfd)
+            try:
+                payload = ('ok', fn(*args, **kwargs))
+            except BaseException as exc:      # reported to the parent, never swallowed
+                import traceback
+                payload = ('err', f'{type(exc).__name__}: {exc}\n{traceback.format_exc()[-1500:]}')
+            with os.fdopen(wfd, 'wb') as fil:
+                pickle.dump(payload, fil)
+            code = 0
+        finally:
+            os._exit(code)
+    os.close(wfd)
+    with os.fdopen(rfd, 'rb') as fil:
+        data = fil.read()
+    os.waitpid(pid, 0)
+    if not data:
+        raise HarnessError('forked execution died without a result')
+    kind, val = pickle.loads(data)
+    if kind == 'err':
+        raise HarnessError('forked execution failed: ' + val)
+    return val
